@@ -31,6 +31,8 @@ def ev_from_json(e):
     k = e[0]
     if k == "Create":
         return ("Create", tuple(e[1]), e[2], list(e[3]), e[4], e[5], e[6], e[7], [tuple(w) for w in e[8]])
+    if k == "CreateRefused":
+        return ("CreateRefused", tuple(e[1]), e[2], list(e[3]), e[4], e[5], e[6], e[7])
     if k == "Recv":
         return ("Recv", tuple(e[1]), None if e[2] is None else list(e[2]), e[3], e[4], e[5], [tuple(w) for w in e[6]])
     if k == "Resp":
@@ -135,10 +137,26 @@ class Gen:
             j = rng.randrange(n)
             return [("WAll", res, 10 * j, 10 * j + 10), full]
 
+        forced = None
         while len(evs) < length:
             r = rng.random()
             alive = sorted(ref.wait)
-            if r < 0.22 and len(alive) < 4:
+            if forced is not None and len(alive) < 4:
+                ev, forced = forced, None
+            elif r < 0.05:
+                # fault injection: the network stack refuses the request (put raises), the application
+                # retries the create on the same socket (possibly after other events)
+                key = rng.choice(keys)
+                n = rng.choice([1, 2, 2, 3])
+                vs = [rng.randrange(um) for _ in range(n)] if tp[key] else []
+                ev = ("CreateRefused", key, tp[key], vs, n, fresh_addr(), fresh_addr(), fresh_addr())
+                qarr, args, res = fresh_addr(), fresh_addr(), fresh_addr()
+                n2 = rng.choice([n, n, 1])
+                vs2 = [rng.randrange(um) for _ in range(n2)] if tp[key] else []
+                retry = ("Create", key, tp[key], vs2, n2, qarr, args, res, waits(res, n2))
+                if rng.random() < 0.7:
+                    forced = retry
+            elif r < 0.22 and len(alive) < 4:
                 key = rng.choice(keys)
                 n = rng.choice([1, 1, 2, 2, 3])
                 vs = [rng.randrange(um) for _ in range(n)]
@@ -209,6 +227,13 @@ def small_scenarios(tier):
 
     # two creates on one socket (2 + 1 pairs), their three responses, a retry
     sc.append(("same-socket-two-creates", 0, 3, "id", two_creates((1, 0), "id")))
+    # the stack refuses a create (put raises), the application re-issues it; two responses
+    A = (1, 0)
+    sc.append(("refused-create-then-retry", 0, 2, "id",
+               [("CreateRefused", A, True, [0, 1], 2, 0, 1, 2),
+                ("Create", A, True, [0, 1], 2, 3, 4, 5, [("WAll", 5, 0, 20)]),
+                resp(A, True, True, 1, 101), resp(A, True, True, 2, 102)]
+               + ([("Recv", A, [0], 1, 6, 7, [("WAll", 7, 0, 10)]), resp(A, False, True, 3, 103)] if tier != "quick" else [])))
     # create and receive roles mixed on one socket, colliding virtual qubit, a free --
     # as node 1 talking to node 0 over cross-connected sockets (purpose = remote side's socket id)
     sc.append(("mixed-roles-colliding-qubit-remote0-swapped", 1, 2, "swap", mixed((0, 0), "swap")))
@@ -314,7 +339,8 @@ def run(ctx):
     ctx.rule = ("event sequences on one controller: subroutines issuing create_epr / recv_epr (1-3 pairs, keep or measure, "
                 "1-3 sockets, both roles; own node id and remote node ids over {0,1,2,3} incl. remote 0 with own != 0; the network "
                 "stack's socket->purpose assignment is part of the scenario: identity, cross-connected sockets, offset) and then blocking in wait_all / wait_any / wait_single (kept alive as generators), "
-                "link-layer OK responses arriving before or after the matching instruction, retries of the pending list, "
+                "fault injection: the network stack refuses chosen create requests (put raises, the subroutine ends at that "
+                "line) and the application re-issues them on the same socket; link-layer OK responses arriving before or after the matching instruction, retries of the pending list, "
                 "polls of waiting subroutines, qfree/qalloc that un-block / block deferred keep responses. Random sequences obey "
                 "the contract (last wait covers the result array; response type = request type per socket; ids in range); "
                 "small scenarios are enumerated in EVERY ordering. After every event: queues, pending list, arrays, unit module, "
